@@ -52,6 +52,8 @@ def run_variant(mod, base_model, v, tier):
             raise AnchorError('; '.join(floors))
     except AnchorError as e:
         return {'variant': v.name, 'status': 'anchor', 'why': str(e)}
+    except Exception:       # a rule crashed on an unforeseen shape: no verdict for this variant
+        return {'variant': v.name, 'status': 'anchor', 'why': 'checker exception: ' + traceback.format_exc()[-300:]}
     viol = ctx.violations()
     rules = sorted({i.rule for i in viol})
     if v.kind == 'M':
